@@ -34,8 +34,9 @@ RULE = (
     "check output}; 0-2 input rails; dialog rails on/off; enable_rails_exceptions on/off; v2 rails in config.yml or hand-written) "
     "x 2-5 turns, each with a route (predefined message / LLM message / predefined+LLM / LLM+predefined / two LLM messages / "
     "LLM-chosen next step / custom action) and a verdict accept|reject|rewrite per (rail, turn); the scripted LLM's message texts "
-    "carry unique markers. Non-trivial = at least 2 turns and a reject or rewrite by an output rail in a turn strictly before the "
-    "last turn that generated an LLM message; distinct by the whole case."
+    "carry unique markers; in a third of the later turns the LLM repeats verbatim the message text(s) of an earlier turn, which "
+    "are then checked material of the new turn. Non-trivial = at least 2 turns and a reject or rewrite by an output rail in a turn strictly before the "
+    "last turn that generated an LLM message, or a repeated LLM text in a conversation with a reject/rewrite; distinct by the whole case."
 )
 ASSUMPTIONS = [
     "rail actions are fakes (register_action); they apply their verdict to texts with an LLM lineage and accept anything else (refusals, predefined messages)",
@@ -62,15 +63,19 @@ def _case(draw):
     routes = pipeline.routes_for(cfg)
     turns = []
     for t in range(draw(st.sampled_from([2, 2, 3, 3, 4, 5]))):
+        repeat = draw(st.sampled_from([None, None, t - 1, t - 1, draw(st.integers(0, t - 1))])) if t >= 1 else None
         turns.append(
             {
                 "user": draw(pipeline.st_user_text(t)),
-                "route": draw(st.sampled_from(routes)),
+                "route": draw(st.sampled_from(routes)) if repeat is None else draw(st.sampled_from([turns[repeat]["route"], turns[repeat]["route"], draw(st.sampled_from(routes))])),
                 "in": [draw(pipeline.st_verdict(k, p_accept=12)) for k in cfg["in"]],
                 "out": [draw(pipeline.st_verdict(k, p_accept=4)) for k in cfg["out"]],
                 "body": draw(pipeline.st_body()),
             }
         )
+        if repeat is not None:
+            # the LLM produces, character by character, the message text(s) it produced in turn `repeat` again
+            turns[-1]["repeat_llm"] = repeat
     return {"config": cfg, "turns": turns, "api": draw(st.sampled_from(["sync", "async"]))}
 
 
@@ -103,6 +108,27 @@ def enumerate_cases(tier):
                             for t, (route, out) in enumerate([(first, ["accept"] * len(kinds)), ("llm", ev), ("llm", ["accept"] * len(kinds))]):
                                 turns.append({"user": f"{fakes.mk_user(t)} how is the weather", "route": route, "in": ["accept"], "out": out, "body": "some answer"})
                             yield {"config": cfg, "turns": turns, "api": "sync"}
+
+    # the LLM repeats itself: turn 0 produces a text, turns 1 and 2 produce the identical text again
+    for v in (1, 2):
+        for dialog in (False, True) if v == 1 else (False, True, "llmc"):
+            for exc in (False, True):
+                for kinds in (["check"], ["both", "check"]) if v == 1 else (["check"], ["check", "self"]):
+                    cfg = {"v": v, "in": [], "out": kinds, "dialog": dialog, "exc": exc}
+                    if v == 2:
+                        cfg["style"] = "hand" if dialog is True else "config"
+                    else:
+                        cfg["ret"] = 0
+                    A = ["accept"] * len(kinds)
+                    R = A[:-1] + ["reject"]
+                    W = ["rewrite"] + A[1:]
+                    for first, again in ((R, R), (R, A), (A, R), (A, A), (W, R)):
+                        if W in (first, again) and kinds[0] != "both":
+                            continue
+                        turns = [{"user": f"{fakes.mk_user(0)} how is the weather", "route": "llm", "in": [], "out": first, "body": "the same answer"}]
+                        for t in (1, 2):
+                            turns.append({"user": f"{fakes.mk_user(t)} how is the weather", "route": "llm", "in": [], "out": again, "body": "unused", "repeat_llm": 0})
+                        yield {"config": cfg, "turns": turns, "api": "sync"}
 
 
 # ------------------------------------------------------------------------------------------------
@@ -139,6 +165,8 @@ def _check(case, obs):
     events_at = []  # turns in which an output rail rejected or rewrote an LLM text
     llm_turns = []  # turns in which the LLM generated a message
     prev_kind = None
+    fate = {}  # lineage -> (turn, what the output rails' verdicts made of the text the last time it was produced)
+    repeated = False
     for t, (spec, o) in enumerate(zip(case["turns"], obs.turns)):
         if o["raised"]:
             if pipeline.EVENT_BUDGET in o["raised"]:
@@ -212,13 +240,20 @@ def _check(case, obs):
                     labels.append("rewrite-then-later-rail")
             if not entries and not present_any:
                 labels.append("llm-text-generated-not-uttered")
+            now = "rejected" if m["blocked"] is not None else ("rewritten" if m["final"] != m["orig"] else "passed")
+            if tt != t:
+                repeated = True
+                labels.append("repeated-llm-text")
+                if ln in fate:
+                    labels.append(f"repeat:{fate[ln][1]}-then-{now}" + ("(consecutive-turns)" if fate[ln][0] == t - 1 else ""))
+            fate[ln] = (t, now)
         kind_now = "L" if generated else "P"
         if prev_kind and prev_kind != kind_now:
             labels.append("alternation-" + prev_kind + kind_now)
         prev_kind = kind_now
         if len(generated) > 1:
             labels.append("two-llm-messages-in-turn")
-    nt = bool(events_at and llm_turns and min(events_at) < max(llm_turns))
+    nt = bool(events_at and llm_turns and min(events_at) < max(llm_turns)) or (repeated and bool(events_at))
     if nt:
         labels.append("event-before-later-llm-turn")
         if any(e >= 1 for e in events_at):
